@@ -70,10 +70,13 @@ const (
 	oTrackRemoteFail
 	oTrackMeta
 	nOps
+	// refused by a full queue (fullqueue_test.go only; not part of allLetters)
+	oPinRefused   = nOps
+	oUnpinRefused = nOps + 1
 )
 
 var opName = [...]string{"none", "pin-ok", "pin-failed", "unpin-ok", "unpin-failed", "pin-parked", "pin-queued",
-	"unpin-parked", "track-remote-ok", "track-remote-failed", "track-meta"}
+	"unpin-parked", "track-remote-ok", "track-remote-failed", "track-meta", "pin-refused-queue-full", "unpin-refused-queue-full"}
 
 func (o op) isPinOp() bool {
 	return o == oPinOK || o == oPinFail || o == oPinParked || o == oPinQueued
@@ -326,7 +329,7 @@ func acceptable(s sit) api.TrackerStatus {
 		}
 	}
 	switch s.O {
-	case oPinFail, oUnpinFail, oTrackRemoteFail:
+	case oPinFail, oUnpinFail, oTrackRemoteFail, oPinRefused, oUnpinRefused:
 		m |= errClass // "... or its last pin or unpin failed"
 	case oPinParked, oPinQueued:
 		m |= api.TrackerStatusPinning | api.TrackerStatusPinQueued // "queued or in-progress only while an operation is pending"
@@ -406,11 +409,14 @@ type env struct {
 	label map[string]int
 }
 
+// queueSize is max_pin_queue_size of the trackers built by newTracker.
+var queueSize = 16
+
 func newTracker(model *clus.IPFS, st state.State, workers int) *stateless.Tracker {
 	cfg := &stateless.Config{}
 	cfg.Default()
 	cfg.ConcurrentPins = workers
-	cfg.MaxPinQueueSize = 16
+	cfg.MaxPinQueueSize = queueSize
 	tr := stateless.New(cfg, selfID, "p0", func(context.Context) (state.ReadOnly, error) { return st, nil })
 	var svc interface{} = &clus.IPFSSvc{M: model}
 	if realConn {
